@@ -86,6 +86,13 @@ Close(g, T, L, S, fuel) ==
   IN IF nxt = S \/ fuel = 0 THEN S ELSE Close(g, T, L, nxt, fuel - 1)
 Needed(g, T, L, targets) ==
   Close(g, T, L, {Prod(g, t) : t \in targets} \ {0}, Len(g.stmts) + 1)
+\* the closure without validations (what `-t commands` walks: signature of KF-COMMANDS-NO-VALIDATIONS)
+RECURSIVE CloseNV(_, _, _, _, _)
+CloseNV(g, T, L, S, fuel) ==
+  LET nxt == (S \cup {Prod(g, f) : f \in UNION {All(g, T, L, i) : i \in S}}) \ {0}
+  IN IF nxt = S \/ fuel = 0 THEN S ELSE CloseNV(g, T, L, nxt, fuel - 1)
+NeededNV(g, T, L, targets) ==
+  CloseNV(g, T, L, {Prod(g, t) : t \in targets} \ {0}, Len(g.stmts) + 1)
 
 \* Dependency relation between statements (no validations) and a
 \* topological order of all statements; cyclic graphs get no order.
